@@ -7,6 +7,7 @@
   name is `-`.
 -/
 import Stfs.Model.Sys
+import Stfs.Model.Trig
 import Stfs.Spec.RefFs
 namespace Stfs.Driver
 open Stfs
@@ -265,10 +266,14 @@ def step (s : DState) (line : String) : DState × List String :=
   | "env" :: fields => ({ s with env := parseEnv fields }, [])
   | "call" :: method :: args =>
     let before := s.w
+    let trigs := match parseCall method args with
+      | some c => Trig.eval s.fs { w := s.w, handles := s.handles } c
+      | none => []
     let (s', res) := runCall s method args
     let (s', refres) := refCall s' method args
     let s' := { s' with env := {} }
-    (s', ["call\t" ++ method ++ "\t" ++ "\t".intercalate args, res] ++ observe before s' ++ [refres] ++ encTree s'.ref ++ ["end"])
+    (s', ["call\t" ++ method ++ "\t" ++ "\t".intercalate args, res] ++ observe before s' ++
+      (if trigs.isEmpty then [] else ["trig\t" ++ "\t".intercalate trigs]) ++ [refres] ++ encTree s'.ref ++ ["end"])
   | _ => (s, [])
 
 end Stfs.Driver
